@@ -137,6 +137,10 @@ func checkProgram(c memCase, ladder []uint64) (string, int, int) {
 	if ref.tr.Killed || ref.tr.CompileErr != "" {
 		return "", 0, 0
 	}
+	if again := run(c, hugeMem); again.tr.Rets != ref.tr.Rets || again.tr.ErrTok != ref.tr.ErrTok || strings.Join(again.tr.Events, "\n") != strings.Join(ref.tr.Events, "\n") {
+		// the program's own output varies between runs (an address in a string): relations not applicable
+		return "", 0, 0
+	}
 	seenDone := false
 	killed, done := 0, 0
 	for _, m := range ladder {
@@ -193,6 +197,27 @@ var amplify = []struct{ name, src string }{
 	{"pack", `return #string.pack("s", ("x"):rep(math.min(N, 1 << 26)))`},
 	{"table-insert-front", `local t = {} for i = 1, math.min(N, 3000) do table.insert(t, 1, ("z"):rep(1000)) end return #t`},
 	{"xpcall-retry-alloc", `local kept = {} for round = 1, 100 do xpcall(function() for i = 1, N do kept[#kept + 1] = ("k"):rep(1000) end end, function(m) return m end) end return #kept`},
+	// retention: N rounds each keep ~1.5 KB alive; the round's allocation and
+	// the releases around it happen in differently nested contexts
+	{"retain-plain", `local keep = {} for i = 1, N do keep[#keep + 1] = ("x"):rep(SZ) end return #keep`},
+	{"retain-in-pcall", `local keep = {} for i = 1, N do pcall(function() keep[#keep + 1] = ("x"):rep(SZ) end) end return #keep`},
+	{"retain-in-pcall-then-error", `local keep = {} for i = 1, N do pcall(function() keep[#keep + 1] = ("x"):rep(SZ) error("e") end) end return #keep`},
+	{"retain-in-xpcall-handler", `local keep = {} for i = 1, N do xpcall(error, function(m) keep[#keep + 1] = ("x"):rep(SZ) return m end, i) end return #keep`},
+	{"retain-in-callcontext", `local keep = {} for i = 1, N do runtime.callcontext({}, function() keep[#keep + 1] = ("x"):rep(SZ) end) end return #keep`},
+	{"retain-in-nested-pcall", `local keep = {} for i = 1, N do pcall(pcall, pcall, function() keep[#keep + 1] = ("x"):rep(SZ) end) end return #keep`},
+	{"retain-in-coroutine", `local keep = {} for i = 1, N do coroutine.wrap(function() keep[#keep + 1] = ("x"):rep(SZ) end)() end return #keep`},
+	{"retain-coroutine-finishes-in-pcall", `local keep = {} for i = 1, N do local co = coroutine.wrap(function() coroutine.yield() end) co() pcall(function() keep[#keep + 1] = ("x"):rep(SZ) co() end) end return #keep`},
+	{"retain-coroutine-runs-in-pcall", `local keep = {} for i = 1, N do local co = coroutine.wrap(function() end) pcall(function() keep[#keep + 1] = ("x"):rep(SZ) co() end) end return #keep`},
+	{"retain-coroutine-runs-in-callcontext", `local keep = {} for i = 1, N do local co = coroutine.create(function() return 1 end) runtime.callcontext({}, function() keep[#keep + 1] = ("x"):rep(SZ) coroutine.resume(co) end) end return #keep`},
+	{"retain-coroutine-runs-in-nested-pcall", `local keep = {} for i = 1, N do local co = coroutine.wrap(function() end) pcall(function() keep[#keep + 1] = ("x"):rep(SZ) pcall(co) end) end return #keep`},
+	{"retain-coroutine-from-pcall-runs-outside", `local keep, co = {} for i = 1, N do pcall(function() co = coroutine.wrap(function() keep[#keep + 1] = ("x"):rep(SZ) end) end) co() end return #keep`},
+	{"retain-coroutine-finishes-in-callcontext", `local keep = {} for i = 1, N do local co = coroutine.wrap(function() coroutine.yield() end) co() runtime.callcontext({}, function() keep[#keep + 1] = ("x"):rep(SZ) co() end) end return #keep`},
+	{"retain-coroutine-created-in-pcall", `local keep, co = {} for i = 1, N do pcall(function() co = coroutine.wrap(function() coroutine.yield() keep[#keep + 1] = ("x"):rep(SZ) end) co() end) co() end return #keep`},
+	{"retain-coroutine-closed-in-pcall", `local keep = {} for i = 1, N do local co = coroutine.create(function() local c <close> = setmetatable({}, {__close = function() keep[#keep + 1] = ("x"):rep(SZ) end}) coroutine.yield() end) coroutine.resume(co) pcall(coroutine.close, co) end return #keep`},
+	{"retain-in-close-handler", `local keep = {} for i = 1, N do pcall(function() local c <close> = setmetatable({}, {__close = function() keep[#keep + 1] = ("x"):rep(SZ) end}) error("e") end) end return #keep`},
+	{"retain-in-sort-comparator", `local keep = {} for i = 1, N do table.sort({2, 1}, function(a, b) keep[#keep + 1] = ("x"):rep(SZ) return a < b end) end return #keep`},
+	{"retain-in-gsub-callback", `local keep = {} for i = 1, N do string.gsub("a", "a", function() keep[#keep + 1] = ("x"):rep(SZ) end) end return #keep`},
+	{"retain-in-metamethod", `local keep = {} local o = setmetatable({}, {__index = function(_, k) keep[#keep + 1] = ("x"):rep(SZ) return k end}) for i = 1, N do local _ = o[i] end return #keep`},
 }
 
 // pairing templates: memory required in one context and released in another,
@@ -212,6 +237,96 @@ var pairing = []struct{ name, src string }{
 	{"gsub-callback-errors", `for i = 1, 300 do pcall(string.gsub, ("a"):rep(100), "a", function() error("in callback") end) end emit("ok")`},
 	{"sort-comparator-errors", `local t = {} for i = 1, 100 do t[i] = -i end for i = 1, 200 do pcall(table.sort, t, function(a, b) error("cmp") end) end emit("ok")`},
 	{"yield-across-pcall-release", `for i = 1, 200 do local co = coroutine.wrap(function() pcall(function() local big = ("x"):rep(5000) coroutine.yield(#big) end) return 1 end) co() co() end emit("ok")`},
+}
+
+// interception templates: every place where the library or the VM calls back
+// into Lua is handed a function that allocates for ever; whatever observes
+// the outcome, the context must be killed and nothing of it may run afterwards.
+const allocFn = `function(...) local t = {} while true do t[#t + 1] = {#t} end end`
+
+var callbackSites = []struct{ name, call string }{
+	{"sort-cmp", `table.sort({3, 2, 1}, ALLOC)`},
+	{"sort-lt", `local o = setmetatable({}, {__lt = ALLOC}) table.sort({o, o, o})`},
+	{"gsub-fn", `string.gsub("abc", ".", ALLOC)`},
+	{"gsub-table-index", `string.gsub("abc", ".", setmetatable({}, {__index = ALLOC}))`},
+	{"load-reader", `load(ALLOC)`},
+	{"tostring", `tostring(setmetatable({}, {__tostring = ALLOC}))`},
+	{"format-s", `string.format("%s", setmetatable({}, {__tostring = ALLOC}))`},
+	{"concat-index", `table.concat(setmetatable({}, {__index = ALLOC}), ",", 1, 3)`},
+	{"insert-newindex", `table.insert(setmetatable({}, {__newindex = ALLOC}), 1)`},
+	{"unpack-index", `table.unpack(setmetatable({}, {__index = ALLOC}), 1, 3)`},
+	{"ipairs-index", `for _ in ipairs(setmetatable({}, {__index = ALLOC})) do end`},
+	{"pairs-metamethod", `for _ in pairs(setmetatable({}, {__pairs = ALLOC})) do end`},
+	{"index", `local _ = setmetatable({}, {__index = ALLOC}).k`},
+	{"newindex", `setmetatable({}, {__newindex = ALLOC}).k = 1`},
+	{"call", `setmetatable({}, {__call = ALLOC})()`},
+	{"arith", `local _ = setmetatable({}, {__add = ALLOC}) + 1`},
+	{"concat", `local _ = setmetatable({}, {__concat = ALLOC}) .. "x"`},
+	{"len", `local _ = #setmetatable({}, {__len = ALLOC})`},
+	{"eq", `local m = {__eq = ALLOC} local _ = setmetatable({}, m) == setmetatable({}, m)`},
+	{"lt", `local _ = setmetatable({}, {__lt = ALLOC}) < 1`},
+	{"close", `do local cl <close> = setmetatable({}, {__close = ALLOC}) end`},
+	{"xpcall-handler", `xpcall(error, ALLOC, "x")`},
+	{"coroutine-wrap", `coroutine.wrap(ALLOC)()`},
+	{"for-iterator", `for _ in ALLOC do end`},
+	{"string-rep", `local s = ("x"):rep(1e9)`},
+	{"table-concat-big", `local t = {} for i = 1, 1e6 do t[i] = "xxxxxxxxxxxxxxxx" end local s = table.concat(t)`},
+}
+
+var callbackWrappers = []struct{ name, src string }{
+	{"direct", `emit("before") CALL emit("survived")`},
+	{"in-coroutine", `emit("resume-returned", coroutine.resume(coroutine.create(function() CALL end))) emit("survived") while true do end`},
+	{"pending-close", `local c <close> = setmetatable({}, {__close = function() emit("close-ran") end}) CALL emit("survived")`},
+	{"in-pcall", `emit("intercepted", pcall(function() CALL end)) local t = {} while true do t[#t + 1] = {} end`},
+	{"in-xpcall", `emit("intercepted", xpcall(function() CALL end, function(m) emit("handler-ran") return m end)) local t = {} while true do t[#t + 1] = {} end`},
+}
+
+// the retention templates exist once per retained size SZ (what a nested
+// context holds when something bigger is released in it matters)
+func init() {
+	var out []struct{ name, src string }
+	for _, tpl := range amplify {
+		if !strings.Contains(tpl.src, "SZ") {
+			out = append(out, tpl)
+			continue
+		}
+		for _, sz := range []int{100, 1000, 4000} {
+			out = append(out, struct{ name, src string }{fmt.Sprintf("%s/%d", tpl.name, sz), strings.ReplaceAll(tpl.src, "SZ", fmt.Sprint(sz))})
+		}
+	}
+	amplify = out
+}
+
+func interceptTemplates() []struct{ name, src string } {
+	var out []struct{ name, src string }
+	for _, s := range callbackSites {
+		for _, w := range callbackWrappers {
+			call := strings.ReplaceAll(s.call, "ALLOC", allocFn)
+			out = append(out, struct{ name, src string }{s.name + "/" + w.name, strings.ReplaceAll(w.src, "CALL", call)})
+		}
+	}
+	return out
+}
+
+func checkIntercept(c memCase) string {
+	o, hung := runWatched(c, c.Mem, 90*time.Second)
+	if hung {
+		return "did not come back within the watchdog: no memory limit stops it"
+	}
+	if msg := basic(o, c.Mem); msg != "" {
+		return msg
+	}
+	for _, e := range o.tr.Events {
+		for _, marker := range []string{"intercepted", "survived", "resume-returned", "handler-ran", "close-ran"} {
+			if strings.Contains(e, marker) {
+				return fmt.Sprintf("Lua code of the context ran after its memory limit was hit (event %s); status %q, accounted %d", e, o.tr.Status, o.tr.UsedMem)
+			}
+		}
+	}
+	if !o.tr.Killed {
+		return fmt.Sprintf("expected status killed, got %q (error %q, accounted %d)", o.tr.Status, o.tr.ErrTok, o.tr.UsedMem)
+	}
+	return ""
 }
 
 func TestC06(t *testing.T) {
@@ -236,6 +351,8 @@ func TestC06(t *testing.T) {
 		switch c.Kind {
 		case "program":
 			msg, _, _ = checkProgram(c, []uint64{c.Mem})
+		case "intercept":
+			msg = checkIntercept(c)
 		default:
 			msg = checkTemplate(c)
 		}
@@ -270,6 +387,23 @@ func TestC06(t *testing.T) {
 			}
 		}
 	}
+	// (4) interception
+	for _, tpl := range interceptTemplates() {
+		for _, m := range []uint64{20_000, 200_000, 2_000_000} {
+			idx++
+			if !rec.Mine(idx) {
+				continue
+			}
+			c := memCase{Source: tpl.src, Mem: m, CPU: 2_000_000_000, Kind: "intercept", Name: tpl.name}
+			rec.Eval()
+			rec.Class("intercept:" + tpl.name[:strings.Index(tpl.name, "/")])
+			rec.NonTrivial(fmt.Sprint(tpl.name, m))
+			if msg := checkIntercept(c); msg != "" {
+				rec.Violation("intercept", c, tpl.name+fmt.Sprintf(" under memory limit %d: ", m)+msg)
+				return
+			}
+		}
+	}
 	// (2) amplification
 	sizes := []uint64{1000, 1 << 20, 1 << 31, 1 << 40}
 	if rec.Thorough() {
@@ -297,6 +431,12 @@ func TestC06(t *testing.T) {
 		}
 	}
 
+	// the open context-stack finding of C07 as this property meets it (see C05)
+	kfYield := CheckKnown(rec, "C06-yield-inside-protected-call-under-limit", func() bool {
+		c := memCase{Source: `local co = coroutine.create(function() pcall(coroutine.yield, 1) end) coroutine.resume(co) local t = {} for i = 1, 1e7 do t[i] = {i} end`, Mem: 100000, CPU: 500_000_000, Kind: "demo", Name: "yield-inside-pcall-then-allocate"}
+		return checkTemplate(c) != ""
+	})
+
 	// (1) generated programs
 	ShrinkTime = "1ms"
 	prof := luagen.General
@@ -304,7 +444,11 @@ func TestC06(t *testing.T) {
 	RunRapid(rec, "C06/programs", rec.Pick(120, 3000), 0, func(t *rapid.T) {
 		prog := luagen.Generate(t, prof)
 		specs := progcheck.ArgSpecs(prog.Args)
-		src, _ := mlua.Render(prog.Block, nil)
+		src, lines := mlua.Render(prog.Block, nil)
+		if kfYield && progcheck.YieldsInsideProtectedCall(prog.Block, lines, specs, src) {
+			rec.Discard("excluded-by-finding:C06-yield-inside-protected-call-under-limit")
+			return
+		}
 		c := memCase{Source: src, Args: specs, Kind: "program", CPU: 500_000_000}
 		ladder := []uint64{512, 2048, 8192, 32768, 131072, 524288, 2 << 20, 16 << 20}
 		extra := uint64(rapid.IntRange(600, 400000).Draw(t, "M"))
